@@ -14,6 +14,7 @@ fn main() {
     match cmd {
         "dump-std" => chars::dump_std(),
         "chars-sweep" => chars::sweep(args[2].parse().unwrap(), args[3].parse().unwrap()),
+        "sites-probe" => chars::sites_probe(args[2].parse().unwrap(), args[3].parse().unwrap()),
         "layout" => layoutcmd::run(&args[2]),
         "consts" => constscmd::run(),
         "utf32-seg" => utf32cmd::seg(&args[2]),
